@@ -171,7 +171,24 @@ def check(c):
     q, e = K.safe_loads(flat_text)
     if e is not None:
         return Outcome(discard="unrolled-load-failed:" + type(e).__name__)
-    mm = canon.compare_programs(p, q, what=("ops",))
+    # The unrolled text writes each loop value as a literal.  A *computed* float value (e.g. sqrt(44.9)**-1.5) is only known
+    # to the reference up to rounding, so its literal may differ from the loader's value in the last bit: the exact
+    # comparison is made when every loop value is exact (ints, literals); otherwise numbers are compared with the
+    # reference error bound below (compare_ref) and only the structure is compared here.
+    exact_values = True
+    for i, it in enumerate(script.items):
+        if isinstance(it, A.For):
+            for v in refsem.loop_values(it, envs[i]):
+                if isinstance(v, N.V) and v.kind != "int" and v.err != 0:
+                    exact_values = False
+    if exact_values:
+        mm = canon.compare_programs(p, q, what=("ops",))
+    else:
+        out.classes.append("computed-float-loop-values")
+        mm = []
+        if [(o["op"], [int(m) for m in o["modes"]], len(o.get("args", [])), list(o.get("kwargs", {}))) for o in p.operations] != \
+                [(o["op"], [int(m) for m in o["modes"]], len(o.get("args", [])), list(o.get("kwargs", {}))) for o in q.operations]:
+            mm.append(canon.Mismatch("structure", "operation names/modes/argument shapes differ"))
     if p.modes != q.modes:
         mm.append(canon.Mismatch("mode-set", "%r vs %r" % (p.modes, q.modes)))
     if mm:
